@@ -130,7 +130,7 @@ class TransformMachine:
     def enabled(self, st, alphabet):
         elem = st.table._Element__element
         W, H = TR.table_width(elem), TR.table_height(elem)
-        ops = [("transpose",), ("rstrip", False), ("rstrip", True), ("optimize_width",), ("csv_roundtrip",)]
+        ops = [("transpose",), ("rstrip", False), ("rstrip", True), ("optimize_width",), ("csv_roundtrip",), ("read_all",)]
         areas = []
         if W >= 2 and H >= 2:
             areas.append((0, 0, 1, 1))
@@ -197,6 +197,13 @@ class TransformMachine:
             elif name == "csv_roundtrip":
                 csv_text = t.to_csv()
                 st.ret = csv_text
+            elif name == "read_all":
+                # populate every wrapper cache (rows, cells, columns)
+                for y in range(t.height):
+                    rr = t.get_row(y, clone=False)
+                    for x in range(rr.width):
+                        rr.get_cell(x, clone=False)
+                list(t.traverse_columns())
             else:
                 raise AssertionError(name)
         except Exception as e:
@@ -238,6 +245,18 @@ class TransformMachine:
             fail("live-read-raises", "no exception", type(e).__name__, f"read-raises:{type(e).__name__}")
         for oracle, exp, act in TableMachine.structure(elem, t):
             fail(oracle, exp, act, "structure:" + oracle)
+        for oracle, exp, act in TableMachine.cache_invariants(t):
+            fail(oracle, exp, act, "cache:" + oracle)
+        if not fails:
+            # reads served through the cached row / cell wrappers
+            try:
+                Wc, Hc = TR.table_width(elem), TR.table_height(elem)
+                via_cache = [[t.get_value((x, y)) for x in range(Wc + 1)] for y in range(Hc + 1)]
+                exp_c = [[at(qv, x, y) for x in range(Wc + 1)] for y in range(Hc + 1)]
+                if via_cache != exp_c:
+                    fail("cached-reads-vs-xml", exp_c, via_cache, "cached-read!=own-xml")
+            except Exception as e:
+                fail("cached-read-raises", "no exception", type(e).__name__, f"read-raises:{type(e).__name__}")
         if fails:
             return fails
 
@@ -417,7 +436,8 @@ class TransformMachine:
     # ------------------------------------------------------------ key etc.
     def key(self, st):
         t = st.table
-        return digest(etree.tostring(t._Element__element), tuple(t._tmap), tuple(t._cmap), st.exc)
+        cached = (tuple(sorted(t._indexes["_tmap"])), tuple(sorted(t._indexes["_cmap"])))
+        return digest(etree.tostring(t._Element__element), tuple(t._tmap), tuple(t._cmap), cached, st.exc)
 
     def outcome(self, st):
         return (st.exc, repr(st.ret)[:40] if not isinstance(st.ret, str) else "csv")
